@@ -252,6 +252,9 @@ def entries():
         model="ensemble", samplewise=True, cost=3)
     add("ExpectedModelChangeMaximization(bootstrap_size=2,ord=1)", "ExpectedModelChangeMaximization",
         {"bootstrap_size": 2, "ord": 1}, model="reg", cost=3)
+    # n_train given as a number of samples (int) instead of a fraction
+    add("ExpectedModelChangeMaximization(n_train=2)", "ExpectedModelChangeMaximization", {"n_train": 2}, model="reg",
+        cost=3)
     add("FourDs(lmbda=0.3)", "FourDs", {"lmbda": 0.3}, model="fourds", cost=3)
     add("ProbCover(alpha=0.5)", "ProbCover", {"alpha": 0.5}, model=None, rows=False, cost=3)
     add("TypiClust(k=2)", "TypiClust", {"k": 2}, model=None, rows=False, cost=3)
